@@ -498,7 +498,61 @@ def observed_client(P, c, o):
 
 # ------------------------------------------------------------------------------------------------
 
-def run_program(ctx, prog, lab_id, plan, stats, judge_cases, judge_meta):
+def call_token(P, c, o, hl, seen, text, cfn, csvc, sfn, ssvc, transport, proto, reqf, reps, byte_level=True):
+    """the token of one observed call for Judge/JGenCall.v (judge_call); None if the request frame is unusable.
+    o: the harness' observation (client outcome), hl: handler invocations observed, seen: the arguments the handler saw,
+    text: Error() of the scripted error, reqf / reps: request frame and reply frames (with their 4-byte size)"""
+    p, m, d = P.p, c.m, c.desc
+    wn = wire_name(m)
+    hdrs = parse_headers(reqf)
+    if c.unwritable and not reqf:
+        hdrs = [[b"_cid", b"c03"], [b"_opid", str(o.get("opid")).encode()], [b"_timeout", b"2000"]]
+    if hdrs is None:
+        return None
+    tok_args = [P.slot_tok(a["type"], v) for a, v in zip(m["args"], c.args)]
+    if d[0] == "ret":
+        tok_out = [0, [] if (m["ret"] is None or d[1] is None) else [C2.val_tok(p, m["ret"], d[1])]]
+    elif d[0] == "exc":
+        _, sdef = L.lookup(p, d[1], d[2])
+        tok_out = [1, P.names[(d[1], d[2])], C2.struct_tok(p, sdef, d[3]), text]
+    elif d[0] == "appexc":
+        tok_out = [2, d[1], text]
+    else:
+        tok_out = [3, d[1]]
+    tok_log = []
+    for h in hl:
+        tok_log.append([wn.encode(), [P.slot_tok(a["type"], v) for a, v in zip(m["args"], seen)]])
+    oc = o["client"]
+    k = oc.get("kind")
+    if k == "ret":
+        v = None if m["ret"] is None else L.from_wire(p, m["ret"], oc.get("value"))
+        tok_cli = [0, [] if v is None else [C2.val_tok(p, m["ret"], v)]]
+    elif k == "declared":
+        fn2, sdef = P.by_key[oc["exc"]]
+        tok_cli = [1, P.names[(fn2, sdef["name"])], C2.struct_tok(p, sdef, L.struct_from_wire(p, sdef, oc["value"]))]
+    elif k == "appexc":
+        tok_cli = [2, oc["type"], bytes.fromhex(oc["msg"])]
+    elif k == "transport":
+        tok_cli = [4] if oc["type"] == 3 else [3, oc["type"], bytes.fromhex(oc["msg"])]
+    else:
+        tok_cli = [5]
+    binary = byte_level and proto in BYTE_LEVEL
+    if proto == "json":
+        tok_args, tok_log, tok_cli = canon_nan(tok_args), canon_nan(tok_log), canon_nan(tok_cli)
+        if tok_out[0] in (0, 1):
+            tok_out = tok_out[:2] + canon_nan(tok_out[2:3]) + tok_out[3:] if tok_out[0] == 1 else canon_nan(tok_out)
+    tam = []
+    if c.tamper is not None:
+        tam = [[] if "name" not in c.tamper else [bytes.fromhex(c.tamper["name"])],
+               [] if "type" not in c.tamper else [c.tamper["type"]]]
+    fuel = min(400000, 4 * (len(reqf) + sum(len(x) for x in reps)) + 2000)
+    return [P.sids[(cfn, csvc)], P.sids[(sfn, ssvc)], go_name(m).encode(), REGISTRY[transport], hdrs,
+            tok_args, tok_out, tok_log, tok_cli, len(reps),
+            [reqf[4:]] if (binary and reqf) else [], [reps[0][4:]] if (binary and reps) else [], tam, fuel,
+            PROTO_CODE[proto]]
+
+
+def run_program(ctx, prog, lab_id, plan, stats, judge_cases, judge_meta, burst_cases=None, burst_meta=None):
     lb = lab.Lab(prog, lab_id=lab_id, extra_imports=["verifharness/lab/ext_c03"])
     try:
         lb.build()
@@ -508,7 +562,7 @@ def run_program(ctx, prog, lab_id, plan, stats, judge_cases, judge_meta):
         lb.remove()
         return
     try:
-        _run_program(ctx, prog, lb, plan, stats, judge_cases, judge_meta)
+        _run_program(ctx, prog, lb, plan, stats, judge_cases, judge_meta, burst_cases, burst_meta)
     finally:
         lb.remove()
 
@@ -544,7 +598,7 @@ def plan_program(rng, P, svcs, plan):
     return sessions
 
 
-def _run_program(ctx, prog, lb, plan, stats, judge_cases, judge_meta):
+def _run_program(ctx, prog, lb, plan, stats, judge_cases, judge_meta, burst_cases=None, burst_meta=None):
     rng = ctx.rng
     P = Prog(prog, lb)
     p = prog
@@ -662,57 +716,14 @@ def _run_program(ctx, prog, lb, plan, stats, judge_cases, judge_meta):
             stats["oracle_ok"] += 1
             # --- judge case
             reqf = bytes.fromhex(o.get("request") or "")
-            hdrs = parse_headers(reqf)
-            if c.unwritable and not reqf:
-                hdrs = [[b"_cid", b"c03"], [b"_opid", str(o.get("opid")).encode()], [b"_timeout", b"2000"]]
-            if hdrs is None:
+            reps = [bytes.fromhex(x) for x in o.get("replies") or []]
+            call_tok = call_token(P, c, o, hl, getattr(c, "seen", None), c.text, cfn, csvc, sfn, ssvc, transport, proto,
+                                  reqf, reps)
+            if call_tok is None:
                 ctx.violation("C03: request frame not recorded / malformed", rep)
                 continue
-            reps = [bytes.fromhex(x) for x in o.get("replies") or []]
-            tok_args = [P.slot_tok(a["type"], v) for a, v in zip(m["args"], c.args)]
-            if d[0] == "ret":
-                tok_out = [0, [] if (m["ret"] is None or d[1] is None) else [C2.val_tok(p, m["ret"], d[1])]]
-            elif d[0] == "exc":
-                _, sdef = L.lookup(p, d[1], d[2])
-                tok_out = [1, P.names[(d[1], d[2])], C2.struct_tok(p, sdef, d[3]), c.text]
-            elif d[0] == "appexc":
-                tok_out = [2, d[1], c.text]
-            else:
-                tok_out = [3, d[1]]
-            tok_log = []
-            for h in hl:
-                dfn, dsvc, sm = served[wn]
-                tok_log.append([wn.encode(), [P.slot_tok(a["type"], v) for a, v in zip(m["args"], c.seen)]])
-            oc = o["client"]
-            k = oc.get("kind")
-            if k == "ret":
-                v = None if m["ret"] is None else L.from_wire(p, m["ret"], oc.get("value"))
-                tok_cli = [0, [] if v is None else [C2.val_tok(p, m["ret"], v)]]
-            elif k == "declared":
-                fn2, sdef = P.by_key[oc["exc"]]
-                tok_cli = [1, P.names[(fn2, sdef["name"])], C2.struct_tok(p, sdef, L.struct_from_wire(p, sdef, oc["value"]))]
-            elif k == "appexc":
-                tok_cli = [2, oc["type"], bytes.fromhex(oc["msg"])]
-            elif k == "transport":
-                tok_cli = [4] if oc["type"] == 3 else [3, oc["type"], bytes.fromhex(oc["msg"])]
-            else:
-                tok_cli = [5]
-            binary = proto in BYTE_LEVEL
-            if binary and reqf:
+            if proto in BYTE_LEVEL and reqf:
                 stats["byte_level/" + proto] += 1
-            if proto == "json":
-                tok_args, tok_log, tok_cli = canon_nan(tok_args), canon_nan(tok_log), canon_nan(tok_cli)
-                if tok_out[0] in (0, 1):
-                    tok_out = tok_out[:2] + canon_nan(tok_out[2:3]) + tok_out[3:] if tok_out[0] == 1 else canon_nan(tok_out)
-            tam = []
-            if c.tamper is not None:
-                tam = [[] if "name" not in c.tamper else [bytes.fromhex(c.tamper["name"])],
-                       [] if "type" not in c.tamper else [c.tamper["type"]]]
-            fuel = min(400000, 4 * (len(reqf) + sum(len(x) for x in reps)) + 2000)
-            call_tok = [P.sids[(cfn, csvc)], P.sids[(sfn, ssvc)], go_name(m).encode(), REGISTRY[transport], hdrs,
-                        tok_args, tok_out, tok_log, tok_cli, nrep,
-                        [reqf[4:]] if (binary and reqf) else [], [reps[0][4:]] if (binary and reps) else [], tam, fuel,
-                        PROTO_CODE[proto]]
             key = (cfn, csvc, sfn, ssvc)
             per_case.setdefault(key, ([], []))
             per_case[key][0].append(call_tok)
@@ -763,6 +774,54 @@ def _run_program(ctx, prog, lb, plan, stats, judge_cases, judge_meta):
                     calls[i].m["name"], transport, proto, len(req["burst"]), "; ".join(problems)), rep)
             else:
                 stats["burst_ok"] += 1
+        # --- the burst on the model: one case per round for Judge/JGenCallConc.v (the composition of the registry model
+        # with the call model): the hypotheses of c03_concurrent_calls_independent on what travelled (pairwise distinct
+        # op ids, replies delivered when alone, only server replies to these calls arrived) and its conclusion (each
+        # caller saw what the model gives for its call made alone, on its own request / reply bytes)
+        for fr in resp.get("burst_frames") or []:
+            rnd = fr.get("round")
+            bs = [b for b in resp.get("burst") or [] if b.get("round") == rnd and "client" in b and
+                  b["index"] < len(resp["calls"]) and "client" in resp["calls"][b["index"]]]
+            if len(bs) < 2:
+                continue
+            by_op_req, by_op_rep = {}, collections.defaultdict(list)
+            for x in fr.get("requests") or []:
+                fb = bytes.fromhex(x)
+                hd = dict((k, v) for k, v in (parse_headers(fb) or []))
+                by_op_req[hd.get(b"_opid")] = fb
+            for x in fr.get("replies") or []:
+                fb = bytes.fromhex(x)
+                hd = dict((k, v) for k, v in (parse_headers(fb) or []))
+                by_op_rep[hd.get(b"_opid")].append(fb)
+            toks, metas, ok = [], [], True
+            for b in bs:
+                cb = calls[b["index"]]
+                op = str(b.get("opid")).encode()
+                reqf = by_op_req.get(op, b"")
+                reps = by_op_rep.get(op, [])
+                hl = b.get("handler") or []
+                try:
+                    seen = [L.from_wire(p, a["type"], j) for a, j in zip(cb.m["args"], (hl[0].get("args") or []))] if hl else None
+                    tok = call_token(P, cb, b, hl, seen, bytes.fromhex(b.get("outcome_text", "")), cfn, csvc, sfn, ssvc,
+                                     transport, proto, reqf, reps)
+                except Exception as ex:  # noqa  (an observation the oracle above has already reported)
+                    tok = None
+                if tok is None:
+                    ok = False
+                    break
+                toks.append(tok)
+                m2 = dict(base)
+                m2.update({"method": cb.m["name"], "call": req["calls"][b["index"]], "observed": b, "round": rnd,
+                           "in_flight": len(bs)})
+                metas.append(m2)
+            if not ok:
+                stats["burst_rounds_not_judged"] += 1
+                continue
+            stats["burst_rounds_judged"] += 1
+            stats["burst_rounds/" + transport] += 1
+            if burst_cases is not None:
+                burst_cases.append([P.env, P.services, toks, [bytes.fromhex(x)[4:] for x in fr.get("replies") or []]])
+                burst_meta.append((L.render(p), metas, dict(base, round=rnd)))
         if failed_session is not None and len(ctx.violations) == failed_session[1]:
             rep = dict(base)
             rep.update({"idl": L.render(p), "response": str(failed_session[0])[:1500], "request": req,
@@ -863,6 +922,7 @@ def run(ctx, br):
     quick = ctx.tier == "quick"
     stats = collections.Counter()
     judge_cases, judge_meta = [], []
+    burst_cases, burst_meta = [], []
     tag = "c03_%d" % (ctx.seed % 100000)
     if quick:
         progs = [("boundary", {"boundary": 6}), ("small", {"combos": 6, "per_method": 3}),
@@ -881,7 +941,7 @@ def run(ctx, br):
             prog = L.gen_program(ctx.rng, pid, size, features={"scopes": False, "consts": True})
         sizes[size] += 1
         before = len(ctx.violations)
-        run_program(ctx, prog, "%s_%d" % (tag, i), plan, stats, judge_cases, judge_meta)
+        run_program(ctx, prog, "%s_%d" % (tag, i), plan, stats, judge_cases, judge_meta, burst_cases, burst_meta)
         nprog += 1
         if len(ctx.violations) - before > 30:
             break
@@ -906,6 +966,34 @@ def run(ctx, br):
             for b in TAGS:
                 if v & b:
                     tagbits[TAGS[b]] += 1
+    # --- bursts on the composed model
+    t_j = __import__("time").time()
+    bverdicts = vlib.run_judge(ctx.rundir, "JGenCallConc", "judge", burst_cases, shard=500000) if burst_cases else []
+    stats["ms_judge_burst"] += int(1000 * (__import__("time").time() - t_j))
+    BURST_FAIL = {-1001: "op ids of the calls in flight are not pairwise distinct",
+                  -1002: "a call's reply would not be delivered to it when made alone (delivered_aloneb)",
+                  -1003: "a reply frame travelled that is not the server model's reply to one of the calls in flight (net_okb)",
+                  -1: "burst case malformed"}
+    burst_tags = collections.Counter()
+    for (idl, metas, bmeta), v in zip(burst_meta, bverdicts):
+        if v < 0:
+            mism += 1
+            if v in BURST_FAIL:
+                rep = dict(bmeta)
+                rep["calls"] = [dict((k, str(x)[:400]) for k, x in m_.items()) for m_ in metas]
+                why = BURST_FAIL[v]
+            else:
+                rep = dict(metas[-v - 1]) if -v - 1 < len(metas) else dict(bmeta)
+                why = "a caller's outcome in the burst is not the model's outcome of the same call made alone"
+            rep["idl"] = idl
+            rep["no_failing_input_found"] = True
+            rep["broken"] = "correspondence JGenCallConc.judge (Model/GenCallConc.v over Model/Registry.v + Model/GenCall.v; " \
+                            "theorem c03_concurrent_calls_independent): " + why
+            ctx.violation("C03 correspondence (burst, %s over %s/%s): %s" %
+                          (rep.get("method", "round %s" % bmeta.get("round")), bmeta.get("transport"), bmeta.get("proto"), why), rep)
+        else:
+            validated += len(metas)
+            burst_tags["registry: hypotheses checked" if v & 16384 else "direct hand-over"] += 1
     ctx.assumptions += [
         "the TJSON codec is Apache Thrift's: calls under it are compared with the model at the level of values "
         "(arguments seen, outcome returned, reply count); byte-level replay of request and reply is done for TBinary and "
@@ -927,6 +1015,8 @@ def run(ctx, br):
         "program_sizes": dict(sizes),
         "traces_validated_against_impl": validated,
         "judge_cases": len(judge_cases),
+        "burst_cases": len(burst_cases),
+        "burst_cases_by_kind": dict(burst_tags),
         "judge_mismatches": mism,
         "model_branch_hits": dict(tagbits),
         "input_histogram": dict(stats),
